@@ -25,7 +25,7 @@ import (
 func init() {
 	core.Register(&core.Property{
 		ID:   "C18",
-		Rule: "generated resources of every R4 type x element nodes of their FHIR tree x path forms {indexed, plain, first()/last(), where(field = lit), extension(url), tail/skip/take sub-slices, no-op trailing steps} x operations {add, insert, delete, replace, move} x values {right type, sibling type, wrong type, nil} x indexes [-1, len+1] ∪ {MinInt, MaxInt}; each call runs on a fresh clone; on success the resource must equal the result of the harness' own edit of a second clone (hence every other element unchanged); on error the deterministic bytes of the resource and of the value must be unchanged; delete of an absent element is a no-op success; Move reports ErrNotImplemented; sequences with inverse pairs return to the original. distinct_nontrivial = distinct (operation, path form, element class, value kind, outcome) tuples",
+		Rule: "generated resources of every R4 type x element nodes of their FHIR tree x path forms {indexed, plain, first()/last(), where(field = lit), extension(url), tail/skip/take sub-slices, no-op trailing steps} x operations {add, insert, delete, replace, move} x values {right type, sibling type, other primitive type, wrong complex type, nil}; add also on primitive elements (id, extension, and the scalar proto fields value/precision/timezone that are not elements) x indexes [-1, len+1] ∪ {MinInt, MaxInt}; each call runs on a fresh clone; on success the resource must equal the result of the harness' own edit of a second clone (hence every other element unchanged); on error the deterministic bytes of the resource and of the value must be unchanged; delete of an absent element is a no-op success; Move reports ErrNotImplemented; sequences with inverse pairs return to the original. distinct_nontrivial = distinct (operation, path form, element class, value kind, outcome) tuples",
 		Assumptions: []string{"an error on an operation the model considers valid is not a violation (the statement constrains successes and failures, not which calls succeed); every (operation, path form) pair must have been observed to succeed at least once",
 			"sibling-type values (code for an enum-bound code, integer for positiveInt, id for a reference) may be normalised by the library: on success only the frame (everything but the target) and non-emptiness of the target are checked"},
 		Run:    runC18,
@@ -382,6 +382,10 @@ func c18Run(env *core.Env, c c18Case) (bool, bool) {
 			if fd.Message().FullName() == value.ProtoReflect().Descriptor().FullName() {
 				value = &dtpb.HumanName{Family: &dtpb.String{Value: "wrong type"}}
 			}
+		case "cross":
+			// a primitive datatype other than the target's: the library may normalise or reject it, never fail otherwise
+			value = crossValue(fd.Message(), rng)
+			frameOnly = true
 		case "nil":
 			value = nil
 		}
@@ -437,7 +441,7 @@ func c18Run(env *core.Env, c c18Case) (bool, bool) {
 		}
 	case "add":
 		// the path selects the element nd; the named field of nd gains the value
-		if nd.IsPrim {
+		if nd.MD == nil {
 			return false, false
 		}
 		path, ok = buildPath(tree, nd, c.Form)
@@ -448,6 +452,9 @@ func c18Run(env *core.Env, c c18Case) (bool, bool) {
 		if fd == nil {
 			valid = false
 			targetParent = nd
+			if c.Value != "nil" {
+				value = crossValue(nd.MD, rng)
+			}
 		} else {
 			mkValue(fd)
 			targetFD, targetParent = fd, nd
@@ -699,6 +706,25 @@ func siblingValue(fd protoreflect.FieldDescriptor, r *core.Rng) proto.Message {
 	return &dtpb.String{Value: "sibling"}
 }
 
+// crossValue: a primitive of a type different from the field's.
+func crossValue(md protoreflect.MessageDescriptor, r *core.Rng) proto.Message {
+	pal := []proto.Message{
+		&dtpb.Integer{Value: 0}, &dtpb.Integer{Value: 7}, &dtpb.Integer{Value: -1}, &dtpb.PositiveInt{Value: 2}, &dtpb.UnsignedInt{Value: 0},
+		&dtpb.Boolean{Value: true}, &dtpb.Boolean{}, &dtpb.String{Value: "1"}, &dtpb.String{Value: "true"}, &dtpb.Code{Value: "male"}, &dtpb.Decimal{Value: "1.5"},
+		&dtpb.Date{ValueUs: 1577836800000000, Timezone: "UTC", Precision: dtpb.Date_DAY}, &dtpb.DateTime{ValueUs: 1577836800000000, Timezone: "UTC", Precision: dtpb.DateTime_SECOND},
+		&dtpb.Instant{ValueUs: 1577836800000000, Timezone: "Z", Precision: dtpb.Instant_SECOND}, &dtpb.Time{ValueUs: 3600000000, Precision: dtpb.Time_SECOND},
+		&dtpb.Base64Binary{Value: []byte{1, 2}}, &dtpb.Uri{Value: "urn:x"}, &dtpb.Id{Value: "i1"}, &dtpb.Markdown{Value: "m"}, &dtpb.Canonical{Value: "http://c"}, &dtpb.Oid{Value: "urn:oid:1.2"},
+		&dtpb.Uuid{Value: "urn:uuid:0"}, &dtpb.Url{Value: "http://u"}, &dtpb.Xhtml{Value: "<div/>"},
+	}
+	for k := 0; k < 8; k++ {
+		v := pal[r.Intn(len(pal))]
+		if md == nil || v.ProtoReflect().Descriptor().FullName() != md.FullName() {
+			return v
+		}
+	}
+	return &dtpb.Integer{Value: 1}
+}
+
 func replayC18(env *core.Env, a []json.RawMessage) {
 	var c c18Case
 	json.Unmarshal(a[0], &c)
@@ -753,11 +779,20 @@ func c18Resource(env *core.Env, tn string, seed uint64, rich bool, totality bool
 		nd := nodes[ti]
 		for _, form := range c18Forms {
 			run(c18Case{Node: ti, Form: form, Op: "delete"})
-			for _, vk := range []string{"right", "sibling", "wrong", "nil"} {
+			for _, vk := range []string{"right", "sibling", "wrong", "nil", "cross"} {
 				if vk != "right" && rng.Intn(3) != 0 {
 					continue
 				}
 				run(c18Case{Node: ti, Form: form, Op: "replace", Value: vk})
+			}
+		}
+		if nd.IsPrim {
+			run(c18Case{Node: ti, Form: "indexed", Op: "replace", Value: "cross"})
+			if nd.MD != nil {
+				// add on a primitive element: its element children (id, extension) and its scalar proto fields (not elements)
+				for _, f := range []string{"value", "id", "extension", "valueUs", "precision", "timezone"} {
+					run(c18Case{Node: ti, Form: "indexed", Op: "add", Field: f, Value: []string{"right", "cross", "wrong"}[rng.Intn(3)]})
+				}
 			}
 		}
 		run(c18Case{Node: ti, Form: "indexed", Op: "move", Index: rng.Intn(3)})
@@ -769,6 +804,7 @@ func c18Resource(env *core.Env, tn string, seed uint64, rich bool, totality bool
 			run(c18Case{Node: ti, Form: "indexed", Op: "insert", Value: "wrong", Index: 0})
 			run(c18Case{Node: ti, Form: "indexed", Op: "insert", Value: "nil", Index: 0})
 			run(c18Case{Node: ti, Form: "indexed", Op: "insert", Value: "sibling", Index: 0})
+			run(c18Case{Node: ti, Form: "indexed", Op: "insert", Value: "cross", Index: 0})
 		}
 		if !nd.IsPrim && nd.MD != nil {
 			// add: every kind of field — absent scalar, populated scalar, list, unknown, snake_case, capitalised
@@ -787,7 +823,7 @@ func c18Resource(env *core.Env, tn string, seed uint64, rich bool, totality bool
 				form := c18Forms[rng.Intn(len(c18Forms))]
 				run(c18Case{Node: ti, Form: form, Op: "add", Field: f, Value: "right"})
 				if rng.Intn(3) == 0 {
-					run(c18Case{Node: ti, Form: "indexed", Op: "add", Field: f, Value: []string{"sibling", "wrong", "nil"}[rng.Intn(3)]})
+					run(c18Case{Node: ti, Form: "indexed", Op: "add", Field: f, Value: []string{"sibling", "wrong", "nil", "cross"}[rng.Intn(4)]})
 				}
 			}
 			run(c18Case{Node: ti, Form: "indexed", Op: "add", Field: "noSuchField", Value: "right"})
